@@ -31,6 +31,13 @@ CLAIMED = {
  'C06': dict(level='model_checking', ref='5/C06',
    text='One real iteration from an arbitrary invariant state: exactly one new item linked into the subdivided interval, both new lengths (x-x_left)^(1/N), frame conditions for every other item, own value holder, value = objective at the stored point, point = evolvent image; plus scenarios through the public interface (fresh, reachable prefixes + arbitrary values, failed first trial then resume, second live solver of another dimension) where the whole traversal, links, count, lengths, images and values are compared with the log of completed evaluations.',
    note='z3; symex proxies; stubs as in C02; floats as reals'),
+
+ 'C11': dict(level='model_checking', ref='5/C11',
+   text='2-safety by self-composition in one solver query: several fresh real Solvers on the same objective (reachable concrete prefix + arbitrary values sharing one functional-consistency log), one running Solve alone, the others every composition of the batch total into DoGlobalIteration batches (with and without GetResults polls) followed by Solve twice; itersLimit 3..6, batch totals below / at / beyond the limit and past the accuracy stop, eps symbolic in (0,2). Same trials in the same order, same end point, same result, no trial on a finished solver.',
+   note='z3 QF_NRA; symex proxies; QueueStub; runs bounded as stated; floats as reals'),
+ 'C16': dict(level='model_checking', ref='5/C16',
+   text='From an arbitrary invariant state (so the failing evaluation index is arbitrary) the objective raises on the next evaluation inside the real Process.Solve, for seven exception types incl. KeyboardInterrupt, SystemExit, GeneratorExit, a user BaseException and argument-less exceptions: Solve returns, trials/best/value are those of the completed trials, the record keeps its ordering and fidelity clauses and omits the failed point, the failure is printed; plus public-interface scenarios failing on evaluation 2, 3 or later with arbitrary values.',
+   note='z3; symex proxies (no steering exceptions: Solve swallows BaseException); one fault per run'),
 }
 checks = []
 for p in props:
